@@ -1,11 +1,14 @@
 package saslfam
 
 import (
+	"context"
 	"crypto/tls"
 	"fmt"
+	"net"
 	"strings"
 	"time"
 
+	mail "github.com/wneessen/go-mail"
 	"github.com/wneessen/go-mail/smtp"
 	"golang.org/x/text/secure/precis"
 
@@ -106,10 +109,36 @@ func (rn *Runner) runHonest(scRaw interface{}) {
 		attempts = 2
 	}
 	var auth interface{}
+	var mc *mail.Client
+	var curCfg refsmtp.Config
+	var curSrv *refsmtp.Server
+	if sc.Via == "client" { // mail.Client builds the Auth object itself, on every dial
+		at := map[string]mail.SMTPAuthType{"PLAIN": mail.SMTPAuthPlainNoEnc, "LOGIN": mail.SMTPAuthLoginNoEnc, "CRAM-MD5": mail.SMTPAuthCramMD5,
+			"XOAUTH2": mail.SMTPAuthXOAUTH2, "SCRAM-SHA-1": mail.SMTPAuthSCRAMSHA1, "SCRAM-SHA-256": mail.SMTPAuthSCRAMSHA256,
+			"SCRAM-SHA-1-PLUS": mail.SMTPAuthSCRAMSHA1PLUS, "SCRAM-SHA-256-PLUS": mail.SMTPAuthSCRAMSHA256PLUS}[sc.Mech]
+		dial := func(ctx context.Context, network, address string) (net.Conn, error) {
+			conn, srv, _, err := rn.transport(curCfg, sc.TLSVer)
+			curSrv = srv
+			return conn, err
+		}
+		var err error
+		mc, err = mail.NewClient("mail.example.test", mail.WithDialContextFunc(dial), mail.WithTLSPolicy(mail.NoTLS),
+			mail.WithSMTPAuth(at), mail.WithUsername(cu), mail.WithPassword(cp), mail.WithHELO("client.test"), mail.WithTimeout(20*time.Second))
+		if err != nil {
+			rn.Infra = err
+			return
+		}
+	}
 	for n := 1; n <= attempts; n++ {
 		var h *refsmtp.HonestAuth
 		cfg := refsmtp.Config{Caps: []string{"AUTH " + sc.Mech}, Faults: map[refsmtp.Key]refsmtp.Fault{},
 			Addr: map[string][2]int{}, Expected: map[int][]byte{}}
+		aborted := false
+		if n == 1 && sc.Abort != "" && attempts == 2 { // the server cuts the first attempt short at the second response
+			cls := map[string]string{"t4": "t4", "drop": "drop"}[sc.Abort]
+			cfg.Faults[refsmtp.Key{V: "AUTHRESP", M: 0, R: 2}] = refsmtp.Fault{K: 1, Class: cls, Shape: "none", Rot: 51}
+			aborted = true
+		}
 		iter := sc.Iter
 		if iter <= 0 {
 			iter = 4096
@@ -120,19 +149,29 @@ func (rn *Runner) runHonest(scRaw interface{}) {
 				Challenge: fmt.Sprintf("<%d.%d@refsmtp.test>", rn.T, n), TLS: st}
 			return h
 		}
-		c, srv, state, err := rn.connect(cfg, sc.TLSVer)
-		if err != nil {
-			rn.Infra = err
-			return
+		var aerr error
+		if mc != nil {
+			curCfg = cfg
+			aerr = mc.DialWithContext(context.Background())
+			_ = mc.Close()
+			if curSrv != nil {
+				curSrv.Wait(10 * time.Second)
+			}
+		} else {
+			c, srv, state, err := rn.connect(cfg, sc.TLSVer)
+			if err != nil {
+				rn.Infra = err
+				return
+			}
+			if auth == nil { // the same Auth object is used for a retry (PLUS variants are bound to their connection)
+				auth = mechAuth(sc.Mech, cu, cp, state)
+			} else if strings.HasSuffix(sc.Mech, "-PLUS") {
+				auth = mechAuth(sc.Mech, cu, cp, state)
+			}
+			aerr = c.Auth(auth.(smtp.Auth))
+			_ = c.Close()
+			srv.Wait(10 * time.Second)
 		}
-		if auth == nil { // the same Auth object is used for a retry (PLUS variants are bound to their connection)
-			auth = mechAuth(sc.Mech, cu, cp, state)
-		} else if strings.HasSuffix(sc.Mech, "-PLUS") {
-			auth = mechAuth(sc.Mech, cu, cp, state)
-		}
-		aerr := c.Auth(auth.(smtp.Auth))
-		_ = c.Close()
-		srv.Wait(10 * time.Second)
 		accepted, why, nonce := false, "no exchange", ""
 		if h != nil {
 			nonce = h.ClientNonce
@@ -140,7 +179,8 @@ func (rn *Runner) runHonest(scRaw interface{}) {
 				accepted, why = h.Result.Accepted, h.Result.Why
 			}
 		}
+		// an attempt the server cut short is not judged: only that the NEXT attempt works
 		r.Emit("attempt", "n", n, "mech", sc.Mech, "accepted", accepted, "clientok", aerr == nil, "right", sc.Wrong == "",
-			"judged", judged, "nonce", nonce, "why", why, "clienterr", clip(aerr))
+			"judged", judged && !aborted, "nonce", nonce, "why", why, "clienterr", clip(aerr), "aborted", aborted)
 	}
 }
